@@ -210,6 +210,11 @@ Proof.
     apply IH. exact Hm.
 Qed.
 
+Lemma forallb_map : forall {A B} (f : B -> bool) (g : A -> B) l, forallb f (map g l) = forallb (fun x => f (g x)) l.
+Proof. intros A B f g l. induction l; cbn; congruence. Qed.
+Lemma forallb_ext' : forall {A} (f g : A -> bool) l, (forall x, f x = g x) -> forallb f l = forallb g l.
+Proof. intros A f g l H. induction l; cbn; [reflexivity|]. rewrite H, IHl. reflexivity. Qed.
+
 Lemma map_strip_comm : forall (f : gobj -> gobj) rm, (forall o, strip (f o) = f (strip o)) ->
   map strip (map f rm) = map f (map strip rm).
 Proof. intros f rm H. rewrite !map_map. apply map_ext. exact H. Qed.
@@ -395,13 +400,23 @@ Proof.
   cbn [bind rstrip res_map map]. rewrite A, A2. reflexivity.
 Qed.
 
+Lemma hash_ids_unique_strip : forall out, hash_ids_unique out = hash_ids_unique (map strip out).
+Proof.
+  intro out. unfold hash_ids_unique. rewrite forallb_map. apply forallb_ext'. intro o.
+  change (g_hash (strip o)) with (g_hash o). change (g_secret (strip o)) with (g_secret o).
+  change (cur_id (strip o)) with (cur_id o). rewrite indices_cur_strip. reflexivity.
+Qed.
+
 (* editing only label/annotation directives anywhere in the tree changes nothing but labels and annotations:
    same outcome class, same names (hence suffixes), namespaces, data, binaryData, types *)
 Theorem build_meta_invariant : forall l l', layer_sim l l' -> rstrip (build l) = rstrip (build l').
 Proof.
   intros l l' H. unfold build. pose proof (accumulate_sim l l' H) as A. apply rstrip_inv in A.
   destruct (accumulate l) as [rm| | |], (accumulate l') as [rm'| | |]; try contradiction; try reflexivity.
-  cbn [bind]. apply mapM_add_hash_sim. exact A.
+  cbn [bind]. pose proof (mapM_add_hash_sim rm rm' A) as B. apply rstrip_inv in B.
+  destruct (mapM add_hash rm) as [out| | |], (mapM add_hash rm') as [out'| | |]; try contradiction; try reflexivity.
+  cbn [bind]. rewrite (hash_ids_unique_strip out), (hash_ids_unique_strip out'), B.
+  destruct (hash_ids_unique (map strip out')); [|reflexivity]. cbn [rstrip res_map]. rewrite B. reflexivity.
 Qed.
 
 (* non-vacuity: two trees that differ in every kind of label/annotation directive *)
@@ -572,7 +587,10 @@ Qed.
 Theorem build_keys_disjoint : forall l out, build l = Ok out -> Forall disjoint_keys out.
 Proof.
   intros l out H. unfold build in H. destruct (accumulate l) as [rm| | |] eqn:Ea; cbn [bind] in H; try discriminate.
-  pose proof (accumulate_disjoint l rm Ea) as Hrm. clear Ea. revert out H.
+  pose proof (accumulate_disjoint l rm Ea) as Hrm. clear Ea.
+  destruct (mapM add_hash rm) as [out'| | |] eqn:Em; cbn [bind] in H; try discriminate.
+  destruct (hash_ids_unique out'); [|discriminate]. apply Ok_inj in H. subst out'.
+  revert out Em.
   induction Hrm as [|o t Ho Ht IH]; intros out H; cbn [mapM] in H.
   - apply Ok_inj in H. subst. constructor.
   - destruct (add_hash o) as [o'| | |] eqn:Eh; cbn [bind] in H; try discriminate.
